@@ -197,6 +197,76 @@ func c14Extras() E {
 	return out
 }
 
+// fresh callers: G goroutines keep creating NEW caller coroutines, each making its first (and only) YieldFrom on a target that is
+// already busy answering - whatever a coroutine sets up on first use is raced with the target's reply.  Judged by the light
+// rules of Trace_CorAbs (shape "fresh": the pairs (x, y) the target saw are exactly the pairs the callers saw).
+func c14Fresh(G, M int) E {
+	total := G * M
+	out := E{"ncallers": total, "kind": "ok", "startVal": 0, "shape": "fresh", "issued": total, "extras": E{"doNotation": true, "yieldFromIO": true}}
+	var mu sync.Mutex
+	refs := make([]c14Ref, 0, total)
+	froms := make([]c14From, 0, total)
+	var target *fpgo.CorDef[int]
+	targetDone := make(chan struct{})
+	target = fpgo.CorNewGenerics[int](func() {
+		defer close(targetDone)
+		for k := 1; k <= total; k++ {
+			x := target.YieldRef(100 + k)
+			mu.Lock()
+			refs = append(refs, c14Ref{100 + k, x})
+			mu.Unlock()
+		}
+	})
+	lc := E{"startedBefore": target.IsStarted(), "doneBefore": target.IsDone()}
+	target.Start()
+	var stuck int32
+	var wg sync.WaitGroup
+	for g := 1; g <= G; g++ {
+		wg.Add(1)
+		go func(g int) {
+			defer wg.Done()
+			for m := 1; m <= M && atomic.LoadInt32(&stuck) == 0; m++ {
+				c, x := g*100000+m, g*100000+m
+				fin := make(chan struct{})
+				var self *fpgo.CorDef[int]
+				self = fpgo.CorNewGenerics[int](func() {
+					defer close(fin)
+					y := self.YieldFrom(target, x)
+					mu.Lock()
+					froms = append(froms, c14From{c, 1, x, y})
+					mu.Unlock()
+				})
+				self.Start()
+				select {
+				case <-fin:
+				case <-time.After(3 * time.Second):
+					atomic.StoreInt32(&stuck, 1)
+				}
+			}
+		}(g)
+	}
+	wg.Wait()
+	if atomic.LoadInt32(&stuck) == 1 {
+		out["kind"] = "stuck: a fresh caller's first YieldFrom never returned although the target had YieldRefs left"
+	} else {
+		select {
+		case <-targetDone:
+		case <-time.After(3 * time.Second):
+			out["kind"] = "stuck: callers or target never finished although the target had YieldRefs left"
+		}
+	}
+	time.Sleep(300 * time.Microsecond)
+	lc["startedAfter"], lc["doneAfter"] = target.IsStarted(), target.IsDone()
+	if out["kind"] != "ok" {
+		lc["doneAfter"] = true
+	}
+	out["lifecycle"] = lc
+	mu.Lock()
+	out["refs"], out["froms"] = append([]c14Ref{}, refs...), append([]c14From{}, froms...)
+	mu.Unlock()
+	return out
+}
+
 func c14Main(args []string) error {
 	switch args[0] {
 	case "record":
@@ -228,6 +298,10 @@ func c14Main(args []string) error {
 		// StartWithVal against callers that pounce the moment IsStarted() turns true
 		for r := 0; r < rounds*8; r++ {
 			w.write(c14Run(rng, 4, 1, "fixed", 77, false, true))
+			runs++
+		}
+		for r := 0; r < flagInt(args, "fresh", 6); r++ {
+			w.write(c14Fresh(2+r%3, 1500))
 			runs++
 		}
 		fmt.Printf("{\"runs\":%d}\n", runs)
